@@ -438,6 +438,7 @@ func family(c *harness.Check) []spec {
 
 func main() {
 	harness.Register("pipe", scenario)
+	harness.Register("dlwake", dlScenario)
 	harness.WorkerMain()
 	c := harness.Start("C15")
 	if c.Replay != "" {
@@ -446,7 +447,7 @@ func main() {
 		}
 		os.Exit(0)
 	}
-	c.Rule = "each case is one complete execution (schedule + select choices + timer orders) of a pipe scenario {writer sizes, read buffer, Read|WriteTo, disruptor, reverse transfer}; distinct = distinct observation record (bytes read, per-writer count/error, reader errors, reverse result) per scenario; all are non-trivial (every scenario has >= 2 threads on one pipe)"
+	c.Rule = "each case is one complete execution (schedule + select choices + timer orders) of a pipe scenario {writer sizes, read buffer, Read|WriteTo, disruptor, reverse transfer}; distinct = distinct observation record (bytes read, per-writer count/error, reader errors, reverse result) per scenario; all are non-trivial (every scenario has >= 2 threads on one pipe). dlwake: one case = one execution of {pending Read|WriteTo|Write, setter, sequence of 1..3 deadline changes over {none, past, +1 s}} applied after the call is pending."
 	c.Assumptions = []string{
 		"sequentially consistent memory; scheduling points at every mutex/atomic/channel/select/timer/once operation of netio/pipe.go (rewritten by overlay), none inside plain memory accesses",
 		"virtual clock: future deadlines are 1 s ahead and fire when nothing else can run or as one deviation",
@@ -475,6 +476,15 @@ func main() {
 	// 3-4 thread scenarios: preemption bounding; 5-7 thread scenarios: delay bounding (one more deviation)
 	fold(harness.ExploreBatch("pipe", pb, bound, budget, false))
 	fold(harness.ExploreBatch("pipe", db, harness.Pick(c, 2, 3), budget, true))
+	// deadline changes against a call that is already pending (all sequences of 1..3 changes)
+	dls := dlFamily()
+	for i, r := range harness.ExploreBatch("dlwake", dls, harness.Pick(c, 2, 3), budget, false) {
+		if i%40 == 0 {
+			c.Sample(map[string]any{"scenario": "dlwake(" + r.Param + ")", "executions": r.Stats.Execs, "distinct_observations": len(r.Stats.Observations), "one_observation": anyKey(r.Stats.Observations)})
+		}
+		c.AddExploration("dlwake", r.Param, r.Stats, harness.Confirm(dlScenario(r.Param)))
+	}
+	c.Extra["dlwake_scenarios"] = len(dls)
 	c.Extra["scenarios"] = len(specs)
 	c.Extra["deviation_bound"] = bound
 	c.Finish()
